@@ -18,18 +18,26 @@ TECHNIQUE = (
     "against a scripted gateway under a virtual clock; gateway frames (with arrival times), client frames (with send times) and "
     "every connect/write/read result are logged and checked offline (routing activation bytes, ack matching within 2 s, reads = "
     "user data of target->source diagnostic messages in arrival order, alive-check answered within 0.5 s), under enumerated split "
-    "points and interleavings"
+    "points and interleavings; usage variations: a second live connection (own gateway, address pair, traffic) in the same event loop "
+    "whose history is judged separately against ITS stream, and several tasks (writers, a reader) using one connection at once"
 )
 LEVEL_TEXT = (
     "Exploration with exhaustive sub-spaces: all 256 activation types x protocol versions x address pairs and every routing "
     "activation response code; gateway frame scripts (exhaustive to length 3 quick / 4 thorough over an 8-letter alphabet, random to "
     "length 8) injected before the ack, after it, while the client is blocked in a read and while idle; byte stream cut at every "
     "single split point for base scripts, at seeded multi-splits, byte-wise and coalesced. Each run's history is checked against a "
-    "reference demultiplexer written from ISO 13400-2 frame formats. Held = held on those histories (known findings listed apart)."
+    "reference demultiplexer written from ISO 13400-2 frame formats. Every family (activation types / response codes / activation "
+    "variants / scripted / burst / random programs / concurrent users) also runs, for a share of its cases and in dedicated shards, with "
+    "a SECOND live connection in the same event loop (own host/port and gateway, own or equal address pair, own program and user data, "
+    "shifted start) - each connection is judged on its own history, data of the other stream counts as foreign. One connection used by "
+    "2-3 writer tasks plus optionally a reader task: every request acknowledged in time, the whole alphabet around the acks, frames "
+    "mostly in segments of their own; writes judged from the transmission of their request, reads for content/order/no loss. "
+    "Held = held on those histories (known findings listed apart)."
 )
 LEVEL_NOTE = "Trusted: frame builders and offline checker in vf/checks/c06.py, gateway simulator vf/gateway.py, virtual clock. Only well-formed frames (corrupt headers belong to C08)."
 RULE = (
-    "cases = (URI parameters, routing activation response, client op program, gateway frame script with delays, segmentation plan); "
+    "cases = (URI parameters, routing activation response, client op program or concurrent task programs, gateway frame script with delays, "
+    "segmentation plan, optionally the same for a second connection of the same event loop plus its start offset); "
     "non-trivial = the script contains at least one frame other than the awaited one or a split inside a frame; distinct = distinct case "
     "tuples; distinct_traces = distinct (frame label / op result) sequences"
 )
@@ -37,6 +45,9 @@ ASSUMPTIONS = [
     "gateway frames are well-formed; an ack matches iff the address pair matches and the echoed bytes are empty or a prefix of the request",
     "stray acks that would match a later request are not generated (indistinguishable from a genuine ack)",
     "after a write failed for lack of an ack the connection is closed; later operations are only required to fail with a connection error",
+    "several tasks on one connection: the acknowledgement time of a write runs from the moment its request frame is on the stream; requests differ in their "
+    "first bytes and acks echo at least one byte, so every ack belongs to exactly one request; no read timing is demanded while other tasks hold the connection",
+    "two connections in one event loop carry different user data, so data delivered on the wrong connection is recognisable",
 ]
 EXHAUSTIVE = {"quick": False, "thorough": False}
 EXHAUSTIVE_NOTE = "exhaustive: 256 activation types, 256 routing activation response codes, pre-ack scripts to length 3/4, every single split point of the base scripts"
@@ -85,16 +96,23 @@ def split_client(buf: bytearray) -> list[bytes]:
 def shards(tier: str, seed: int) -> list[dict[str, Any]]:
     if tier == "quick":
         return ([{"mode": "connect", "part": i, "parts": 2} for i in range(2)] + [{"mode": "exh", "maxlen": 3, "part": i, "parts": 6, "splits": 30} for i in range(6)]
-                + [{"mode": "rand", "n": 1200, "part": i} for i in range(8)])
+                + [{"mode": "rand", "n": 1200, "part": i} for i in range(8)] + [{"mode": "pair", "n": 700, "part": 0}, {"mode": "conc", "n": 800, "part": 0}])
     return ([{"mode": "connect", "part": i, "parts": 4, "full": True} for i in range(4)] + [{"mode": "exh", "maxlen": 4, "part": i, "parts": 16, "splits": 200} for i in range(16)]
-            + [{"mode": "rand", "n": 12000, "part": i} for i in range(12)])
+            + [{"mode": "rand", "n": 12000, "part": i} for i in range(12)] + [{"mode": "pair", "n": 8000, "part": i} for i in range(4)] + [{"mode": "conc", "n": 8000, "part": i} for i in range(4)])
 
 
 def required_reach(tier: str) -> dict[str, int]:
     return {"connect.activation-types": 256, "connect.response-codes": 256, "connect.success": 100, "connect.denied": 100, "alive.phase.before-ack": 20,
             "alive.phase.blocked-in-read": 20, "alive.phase.idle": 20, "alive.phase.before-activation": 5, "data-before-ack": 20, "split.in-header": 50, "split.in-payload": 50,
             "bytewise": 10, "coalesced-frames": 20, "write.acked": 500, "write.nack-target-unreachable": 10, "write.nack-other": 10, "write.ack-timeout": 20,
-            "read.delivered": 500, "read.timeout": 50, "histories": 1000, "burst-then-alive": 20, "concurrent-writers": 20}
+            "read.delivered": 500, "read.timeout": 50, "histories": 1000, "burst-then-alive": 20, "concurrent-writers": 20,
+            # a second live connection in the same event loop (each history judged separately)
+            "pair.histories": 300, "pair.both-usable": 300, "pair.same-address-pair": 50, "pair.distinct-address-pairs": 100, "pair.ops-overlap": 300,
+            "pair.activations-overlap": 50, "pair.activation-during-other-op": 100, "pair.other-wait-ends-while-frame-set-aside": 100,
+            "pair.other-wait-ends-while-data-set-aside-in-ack-wait": 100, "#pair.family.": 7,
+            # several tasks on one connection, the gateway alphabet around the acks, frames in segments of their own
+            "conc.histories": 200, "conc.writes-overlap": 200, "conc.read-overlaps-write": 50, "conc.non-ack-frame-while-writes-pending.own-segment": 200,
+            "conc.ack-while-other-write-pending": 200, "conc.write-acked": 500, "conc.write-nacked": 20}
 
 
 # ---- scenario -----------------------------------------------------------------------------------------
@@ -160,7 +178,7 @@ def base_scenario(rng: random.Random) -> dict[str, Any]:
 
 
 def uri(sc: dict[str, Any]) -> str:
-    u = f"doip://192.0.2.9:13400?src_addr={sc['src']:#x}&target_addr={sc['tgt']:#x}&activation_type={sc['act']:#x}&protocol_version={sc['ver']}"
+    u = f"doip://{sc.get('host', '192.0.2.9')}:{sc.get('port', 13400)}?src_addr={sc['src']:#x}&target_addr={sc['tgt']:#x}&activation_type={sc['act']:#x}&protocol_version={sc['ver']}"
     if sc.get("dup"):
         # a key written twice: the documented reading of a target URI is the first value
         k, v = sc["dup"]
@@ -169,15 +187,43 @@ def uri(sc: dict[str, Any]) -> str:
 
 
 # ---- run one scenario ---------------------------------------------------------------------------------
-async def run_scenario(sc: dict[str, Any]) -> dict[str, Any]:
+class Hub:
+    """stands in for asyncio.open_connection for SEVERAL connections living in one event loop: every port has its own gateway
+    factory (own copy of the idea of gateway.GatewayHub, which hands out gateways by attempt number only)"""
+
+    def __init__(self) -> None:
+        self.factories: dict[int, Any] = {}
+        self._orig: Any = None
+
+    def register(self, port: int, factory: Any) -> None:
+        self.factories[port] = factory
+
+    async def open_connection(self, host: Any = None, port: Any = None, **kw: Any) -> tuple[Any, Any]:
+        g = self.factories[port]()
+        if kw.get("limit") is not None:
+            g.reader._limit = kw["limit"]
+        return g.reader, g.writer
+
+    def __enter__(self) -> "Hub":
+        self._orig = asyncio.open_connection
+        asyncio.open_connection = self.open_connection  # type: ignore[assignment]
+        return self
+
+    def __exit__(self, *a: Any) -> None:
+        asyncio.open_connection = self._orig  # type: ignore[assignment]
+
+
+async def run_conn(sc: dict[str, Any], hub: Hub) -> dict[str, Any]:
+    """one connection: own gateway, own address pair, own op program. sc["tasks"] (optional): op programs that run as concurrent
+    tasks on this one connection before the sequential sc["ops"]. The op log is in order of completion."""
     from gallia.transports.doip import DoIPTransport
 
     loop = asyncio.get_running_loop()
     gws: list[gateway.Gateway] = []
-    reactions: list[Any] = []
+    reactions: dict[bytes, list[Any]] = {}  # request user data -> reactions of the gateway still to be played for such a request
     oplog: list[dict[str, Any]] = []
 
-    def factory(n: int) -> gateway.Gateway:
+    def factory() -> gateway.Gateway:
         g = gateway.Gateway(split_client, cuts=set(sc["cuts"]), bytewise=sc["bytewise"])
 
         def on_frame(now: float, fr: bytes) -> None:
@@ -188,8 +234,8 @@ async def run_scenario(sc: dict[str, Any]) -> dict[str, Any]:
                     g.send(d, b, lab)
                 if sc["rar_code"] is not None:
                     g.send(sc["rar_delay"], f_rar(sc["ver"], sc["src"], sc["tgt"], sc["rar_code"], bytes.fromhex(sc["rar_oem"]) if sc["rar_oem"] else None), "RAR")
-            elif ptype == 0x8001 and reactions:
-                react = reactions.pop(0)
+            elif ptype == 0x8001 and reactions.get(fr[12:]):
+                react = reactions[fr[12:]].pop(0)
                 req = fr[12:]
                 prev_d = None
                 for d, spec in react:
@@ -201,45 +247,58 @@ async def run_scenario(sc: dict[str, Any]) -> dict[str, Any]:
         gws.append(g)
         return g
 
+    hub.register(sc.get("port", 13400), factory)
+    if sc.get("start"):
+        await asyncio.sleep(sc["start"])
     out: dict[str, Any] = {"ops": oplog}
-    with gateway.GatewayHub(factory):
-        t0 = loop.time()
-        tr = None
+    t0 = loop.time()
+    tr = None
+    try:
+        tr = await DoIPTransport.connect(uri(sc), timeout=sc["connect_timeout"])
+        out["connect"] = ("ok", loop.time() - t0)
+    except BaseException as e:
+        out["connect"] = ("exc", loop.time() - t0, type(e).__name__, isinstance(e, (ConnectionError, TimeoutError)))
+
+    async def do(op: dict[str, Any], task: int | None) -> None:
+        assert tr is not None
+        g = gws[0]
+        ts = loop.time()
+        rec: dict[str, Any] = {"op": op["op"], "ts": ts, "task": task, "data": op.get("data"), "timeout": op.get("timeout")}
+        for d, spec in op.get("arrive", []):
+            b, lab = spec_frame(sc, spec, None)
+            g.send(d, b, lab)
         try:
-            tr = await DoIPTransport.connect(uri(sc), timeout=sc["connect_timeout"])
-            out["connect"] = ("ok", loop.time() - t0)
+            if op["op"] == "W":
+                data = bytes.fromhex(op["data"])
+                reactions.setdefault(data, []).append(op["react"])
+                n = await tr.write(data, timeout=op.get("timeout"))
+                rec["res"] = ("ok", n)
+            elif op["op"] == "R":
+                r = await tr.read(timeout=op["timeout"])
+                rec["res"] = ("ok", r)
+            else:
+                await asyncio.sleep(op["dt"])
+                rec["res"] = ("ok", None)
         except BaseException as e:
-            out["connect"] = ("exc", loop.time() - t0, type(e).__name__, isinstance(e, (ConnectionError, TimeoutError)))
-        if tr is not None:
-            g = gws[0]
-            for op in sc["ops"]:
-                ts = loop.time()
-                rec: dict[str, Any] = {"op": op["op"], "ts": ts}
-                for d, spec in op.get("arrive", []):
-                    b, lab = spec_frame(sc, spec, None)
-                    g.send(d, b, lab)
-                try:
-                    if op["op"] == "W":
-                        reactions.append(op["react"])
-                        data = bytes.fromhex(op["data"])
-                        n = await tr.write(data, timeout=op.get("timeout"))
-                        rec["res"] = ("ok", n)
-                    elif op["op"] == "R":
-                        r = await tr.read(timeout=op["timeout"])
-                        rec["res"] = ("ok", r)
-                    else:
-                        await asyncio.sleep(op["dt"])
-                        rec["res"] = ("ok", None)
-                except BaseException as e:
-                    rec["res"] = ("exc", type(e).__name__, isinstance(e, ConnectionError), isinstance(e, TimeoutError))
-                rec["te"] = loop.time()
-                oplog.append(rec)
-            try:
-                await tr.close()
-                await tr.close()
-                out["close"] = "ok"
-            except BaseException as e:
-                out["close"] = type(e).__name__
+            rec["res"] = ("exc", type(e).__name__, isinstance(e, ConnectionError), isinstance(e, TimeoutError))
+        rec["te"] = loop.time()
+        oplog.append(rec)
+
+    async def prog(i: int, ops: list[dict[str, Any]]) -> None:
+        for op in ops:
+            await do(op, i)
+
+    if tr is not None:
+        if sc.get("tasks"):
+            await asyncio.gather(*(prog(i, ops) for i, ops in enumerate(sc["tasks"])))
+        for op in sc["ops"]:
+            await do(op, None)
+        try:
+            await tr.close()
+            await tr.close()
+            out["close"] = "ok"
+        except BaseException as e:
+            out["close"] = type(e).__name__
     g0 = gws[0] if gws else None
     out["g_frames"] = g0.frames_out if g0 else []
     out["c_frames"] = g0.client_frames if g0 else []
@@ -250,10 +309,26 @@ async def run_scenario(sc: dict[str, Any]) -> dict[str, Any]:
     return out
 
 
+async def run_scenario(sc: dict[str, Any]) -> list[dict[str, Any]]:
+    """the scenario's connection and - if sc["peer"] is given - a SECOND live connection (own port, own gateway, own address pair,
+    own traffic) in the same event loop; their operations interleave in virtual time. One history per connection."""
+    with Hub() as hub:
+        jobs = [asyncio.ensure_future(run_conn(sc, hub))]
+        if sc.get("peer"):
+            jobs.append(asyncio.ensure_future(run_conn(sc["peer"], hub)))
+        return list(await asyncio.gather(*jobs))
+
+
 # ---- offline checker ----------------------------------------------------------------------------------
-def check(ctx: Any, sc: dict[str, Any], out: dict[str, Any]) -> None:
+def witness(sc: dict[str, Any], top: dict[str, Any] | None, role: str) -> dict[str, Any]:
+    # the witness always carries the whole scenario (both connections); `connection` says whose history was judged
+    t = top if top is not None else sc
+    return {"scenario": t, "connection": role} if t.get("peer") else {"scenario": t}
+
+
+def check_connect(ctx: Any, sc: dict[str, Any], out: dict[str, Any], w: dict[str, Any]) -> bool:
+    """history bookkeeping + routing activation part of the statement; True = the connection is usable and the op program is to be judged"""
     ver, src, tgt = sc["ver"], sc["src"], sc["tgt"]
-    w = {"scenario": sc}
     ctx.reach("histories")
     gfr = out["g_frames"]
     cfr = out["c_frames"]
@@ -271,7 +346,7 @@ def check(ctx: Any, sc: dict[str, Any], out: dict[str, Any]) -> None:
     want_ra = hdr(ver, 0x0005, 7) + struct.pack("!HBL", src, sc["act"], 0)
     if not cfr:
         ctx.violation("connect/no-routing-activation-request", "no routing activation request was sent", w)
-        return
+        return False
     if cfr[0][1] != want_ra:
         field = "activation-type" if cfr[0][1][:10] == want_ra[:10] and cfr[0][1][11:] == want_ra[11:] else "other"
         ctx.violation(f"connect/routing-activation-request-bytes/{field}", "routing activation request does not carry the configured source address / activation type / protocol version",
@@ -285,19 +360,31 @@ def check(ctx: Any, sc: dict[str, Any], out: dict[str, Any]) -> None:
         ctx.reach("connect.success")
         if c[0] != "ok":
             ctx.violation(f"connect/success-code-not-usable/{'oem-field' if sc['rar_oem'] else 'plain'}/{c[2]}", "gateway answered routing activation with the success code but connect() failed", {**w, "connect": c})
-            return
+            return False
     else:
         ctx.reach("connect.denied")
         if c[0] == "ok":
             ctx.violation(f"connect/usable-without-success-code/{sc['rar_code']}", "connect() succeeded although the gateway did not answer with the success code", {**w, "connect": c})
-            return
+            return False
         if not c[3]:
             ctx.violation(f"connect/denied-with-foreign-exception/{c[2]}", "a denied routing activation does not surface as a connection error", {**w, "connect": c})
         limit = ACK_TIME if sc["connect_timeout"] is None else min(ACK_TIME, sc["connect_timeout"])
         if c[1] > limit + TOL:
             ctx.violation("connect/denied-too-late", "connect() did not fail within the routing activation time", {**w, "connect": c})
         check_alive(ctx, sc, out, w, closed_at=t0 + c[1])
+        return False
+    return True
+
+
+def check(ctx: Any, sc: dict[str, Any], out: dict[str, Any], top: dict[str, Any] | None = None, role: str = "first", other: dict[str, Any] | None = None) -> None:
+    """judges the history of ONE connection against the statement; `other` = history of the second connection of the same run (only
+    used to name the origin of data that was never sent on this connection's stream)"""
+    ver, src, tgt = sc["ver"], sc["src"], sc["tgt"]
+    w = witness(sc, top, role)
+    if not check_connect(ctx, sc, out, w):
         return
+    gfr = out["g_frames"]
+    cfr = out["c_frames"]
     # 3..6 op program
     our = [(t, f[12:]) for t, f, l in gfr if l == "D"]  # target->source diagnostic messages: (arrival, user data)
     delivered: list[bytes] = []
@@ -390,10 +477,12 @@ def check(ctx: Any, sc: dict[str, Any], out: dict[str, Any]) -> None:
     # reads: exactly the user data of our diagnostic messages, in arrival order
     end = out["ops"][-1]["te"] if out["ops"] else 0.0
     horizon = closed_at if closed_at is not None else end
-    expect = [d for a, d in our if a <= horizon]
+    expect = [d for a, d in our if a <= horizon + 1e-9]  # (+1e-9: the virtual clock may be an ulp behind the scheduled arrival time)
     if delivered != expect[: len(delivered)]:
         if sorted(delivered) == sorted(expect[: len(delivered)]) or (set(delivered) <= set(expect) and len(set(delivered)) == len(delivered)):
             ctx.violation(f"read/out-of-order/{'requeue-during-ack-wait' if undelivered_during_ack else 'other'}", "reads deliver the diagnostic messages in another order than they arrived", {**w, "delivered": delivered, "expected": expect})
+        elif other is not None and any(d not in expect and d in other_data(other) for d in delivered):
+            ctx.violation("read/data-of-the-other-connection", "a read returned the user data of a diagnostic message that was sent on ANOTHER connection's stream", {**w, "delivered": delivered, "expected": expect})
         elif any(d not in expect for d in delivered):
             ctx.violation("read/foreign-or-fabricated-data", "a read returned data that is not the user data of a target->source diagnostic message", {**w, "delivered": delivered, "expected": expect})
         else:
@@ -427,6 +516,10 @@ def check(ctx: Any, sc: dict[str, Any], out: dict[str, Any]) -> None:
         ctx.violation(f"close/{out.get('close')}", "closing the transport twice raises", w)
 
 
+def other_data(other: dict[str, Any]) -> set[bytes]:
+    return {f[12:] for _, f, _ in other["g_frames"] if f[2:4] == b"\x80\x01"}
+
+
 def check_alive(ctx: Any, sc: dict[str, Any], out: dict[str, Any], w: dict[str, Any], closed_at: float | None) -> None:
     ver, src = sc["ver"], sc["src"]
     want = hdr(ver, 0x0008, 2) + struct.pack("!H", src)
@@ -457,36 +550,189 @@ def check_alive(ctx: Any, sc: dict[str, Any], out: dict[str, Any], w: dict[str, 
             return
 
 
+def check_conc(ctx: Any, sc: dict[str, Any], out: dict[str, Any], top: dict[str, Any] | None = None, role: str = "first", other: dict[str, Any] | None = None) -> None:
+    """history of a connection that was used by several tasks at once (sc["tasks"]), then drained by sequential reads.
+    Writes are judged from the moment THEIR request frame is on the stream (time spent queued behind another user of the connection
+    does not count): acknowledged (positive / TargetUnreachable) within the acknowledgement time -> completes, when the ack arrives;
+    negative ack -> connection error. Every gateway reaction here contains an acknowledgement in time and echoes at least one byte,
+    and the requests differ in their first bytes, so each ack belongs to exactly one request.
+    Reads (in order of completion) are judged for content only: exactly the user data of the target->source diagnostic messages in
+    arrival order, nothing lost once the connection is idle and drained. No read timing is demanded while other tasks hold the connection."""
+    ver, src, tgt = sc["ver"], sc["src"], sc["tgt"]
+    w = witness(sc, top, role)
+    if not check_connect(ctx, sc, out, w):
+        return
+    ctx.reach("conc.histories")
+    gfr, cfr = out["g_frames"], out["c_frames"]
+    our = [(t, f[12:]) for t, f, l in gfr if l == "D"]
+    ops = out["ops"]
+    writes = [o for o in ops if o["op"] == "W"]
+    if sum(1 for x in writes for y in writes if x is not y and x["ts"] < y["te"] and y["ts"] < x["te"]) > 0:
+        ctx.reach("conc.writes-overlap")
+    if any(r["op"] == "R" and r["task"] is not None and any(x["ts"] < r["te"] and r["ts"] < x["te"] for x in writes) for r in ops):
+        ctx.reach("conc.read-overlaps-write")
+    # a frame that is not an acknowledgement and goes through the connection's queue arrives, in a segment of its own, while
+    # two or more writes are under way
+    fed_t = [t for t, _ in out["fed"]]
+    for gi, (t, f, l) in enumerate(gfr):
+        if l in ("D", "F", "H") and sum(1 for x in writes if x["ts"] < t < x["te"]) >= 2:
+            alone = (gi == 0 or gfr[gi - 1][0] < t - gateway.EPS / 2) and (gi + 1 == len(gfr) or gfr[gi + 1][0] > t + gateway.EPS / 2) and sum(1 for x in fed_t if abs(x - t) < gateway.EPS / 2) == 1
+            ctx.reach("conc.non-ack-frame-while-writes-pending" + (".own-segment" if alone and not sc["bytewise"] else ""))
+    used: set[int] = set()
+    broken = False
+    found: list[tuple[str, str, dict[str, Any]]] = []
+    for o in sorted(writes, key=lambda x: x["ts"]):
+        data = bytes.fromhex(o["data"])
+        res, te = o["res"], o["te"]
+        sent = [t for t, f in cfr if f == f_diag(ver, src, tgt, data) and o["ts"] - TOL <= t <= te + TOL]
+        if len(sent) != 1:
+            found.append(("write/concurrent/request-frame", "a write() issued while other tasks use the connection did not put exactly one diagnostic message source->target on the stream", {**w, "op": o}))
+            continue
+        t_send = sent[0]
+        match = None
+        for gi, (t, f, l) in enumerate(gfr):
+            if gi in used or t < t_send - TOL or t > t_send + ACK_TIME - TOL:
+                continue
+            if f[2:4] in (b"\x80\x02", b"\x80\x03"):
+                sa, ta, code = struct.unpack("!HHB", f[8:13])
+                prev = f[13:]
+                if sa == tgt and ta == src and len(prev) > 0 and prev == data[: len(prev)]:
+                    match = (t, f[2:4] == b"\x80\x02", code)
+                    used.add(gi)
+                    break
+        if match is None:
+            continue  # not generated in this family (ack missing or at the deadline): nothing demanded
+        t_ack, pos, code = match
+        if any(x is not o and x["ts"] < t_ack and t_send < x["te"] for x in writes):
+            ctx.reach("conc.ack-while-other-write-pending")
+        if pos or code == 0x06:
+            ctx.reach("conc.write-acked")
+            if res[0] != "ok":
+                found.append((f"write/concurrent/acked-but-fails/{res[1]}", "the gateway acknowledged the message within the acknowledgement time of its transmission, but the write() - issued while other "
+                              "tasks were using the connection - failed", {**w, "op": o, "sent_at": t_send, "ack_at": t_ack}))
+                broken = True
+            elif abs(te - t_ack) > TOL:
+                found.append(("write/concurrent/completion-time", "a write() issued while other tasks use the connection did not complete when its acknowledgement arrived", {**w, "op": o, "sent_at": t_send, "ack_at": t_ack}))
+        else:
+            ctx.reach("conc.write-nacked")
+            if res[0] == "ok":
+                found.append(("write/concurrent/negative-ack-ignored", "a negative acknowledgement (not TargetUnreachable) did not fail the write", {**w, "op": o}))
+            elif not res[2]:
+                found.append((f"write/concurrent/negative-ack/{res[1]}", "negative acknowledgement surfaces as something other than a connection error", {**w, "op": o}))
+    for key, what, wit in found:
+        # a write that failed although it was acknowledged may have torn the connection down: what the other operations did
+        # afterwards is a consequence and is not reported separately
+        if not broken or key.startswith("write/concurrent/acked-but-fails/"):
+            ctx.violation(key, what, wit)
+    if broken or any(k == "write/concurrent/request-frame" for k, _, _ in found):
+        return
+    delivered = [o["res"][1] for o in ops if o["op"] == "R" and o["res"][0] == "ok"]
+    for o in ops:
+        if o["op"] == "R" and o["res"][0] != "ok":
+            if o["res"][3]:
+                ctx.reach("read.timeout")
+            else:
+                ctx.violation(f"read/concurrent/{o['res'][1]}", "read() on an open connection fails with something other than a timeout", {**w, "op": o})
+                return
+    ctx.reach("read.delivered", len(delivered))
+    expect = [d for _, d in our]
+    if delivered != expect[: len(delivered)]:
+        if other is not None and any(d not in expect and d in other_data(other) for d in delivered):
+            ctx.violation("read/data-of-the-other-connection", "a read returned the user data of a diagnostic message that was sent on ANOTHER connection's stream", {**w, "delivered": delivered, "expected": expect})
+        elif any(d not in expect for d in delivered):
+            ctx.violation("read/foreign-or-fabricated-data", "a read returned data that is not the user data of a target->source diagnostic message", {**w, "delivered": delivered, "expected": expect})
+        elif len(set(delivered)) != len(delivered):
+            ctx.violation("read/duplicated", "a diagnostic message was delivered more than once", {**w, "delivered": delivered, "expected": expect})
+        else:
+            ctx.violation("read/out-of-order/concurrent-users", "reads deliver the diagnostic messages in another order than they arrived", {**w, "delivered": delivered, "expected": expect})
+        return
+    # drained: a sequential read at the end timed out although an undelivered message had arrived before its deadline
+    for o in ops:
+        if o["op"] == "R" and o["task"] is None and o["res"][0] != "ok" and len(delivered) < len(our) and our[len(delivered)][0] < o["ts"] + o["timeout"] - TOL:
+            ctx.violation("read/lost/concurrent-users", "a diagnostic message that arrived while several tasks used the connection was never returned by a later read", {**w, "delivered": delivered, "expected": expect})
+            return
+    check_alive(ctx, sc, out, w, None)
+    if out.get("close") != "ok":
+        ctx.violation(f"close/{out.get('close')}", "closing the transport twice raises", w)
+
+
+QUEUED_NOT_AWAITED = {"W": ("D", "F", "H", "K", "X"), "R": ("F", "H", "K", "X")}
+
+
+def pair_reach(ctx: Any, scs: list[dict[str, Any]], outs: list[dict[str, Any]]) -> None:
+    """situations that need two live connections, read off the two histories (API level: op intervals and gateway arrival times)"""
+    ctx.reach("pair.histories")
+    if all(o["connect"][0] == "ok" for o in outs):
+        ctx.reach("pair.both-usable")
+    ctx.reach("pair.same-address-pair" if (scs[0]["src"], scs[0]["tgt"]) == (scs[1]["src"], scs[1]["tgt"]) else "pair.distinct-address-pairs")
+    t_conn = [(o["t0"], o["t0"] + o["connect"][1]) for o in outs]
+    if t_conn[0][0] < t_conn[1][1] and t_conn[1][0] < t_conn[0][1]:
+        ctx.reach("pair.activations-overlap")
+    for x in (0, 1):
+        y = 1 - x
+        if any(a["op"] != "idle" and t_conn[y][0] < a["te"] and a["ts"] < t_conn[y][1] for a in outs[x]["ops"]):
+            ctx.reach("pair.activation-during-other-op")
+    if any(a["op"] != "idle" and b["op"] != "idle" and a["ts"] < b["te"] and b["ts"] < a["te"] for a in outs[0]["ops"] for b in outs[1]["ops"]):
+        ctx.reach("pair.ops-overlap")
+    # connection X is inside a wait (ack wait of a write / blocked read) and a frame it has to set aside for later has arrived;
+    # before X's wait ends, a wait of connection Y ends (its write is acknowledged, its read returns or times out, its activation completes)
+    seen: set[str] = set()
+    for x in (0, 1):
+        y = 1 - x
+        ends = [b["te"] for b in outs[y]["ops"] if b["op"] != "idle"] + [t_conn[y][1]]
+        for a in outs[x]["ops"]:
+            if a["op"] == "idle":
+                continue
+            for t, _, l in outs[x]["g_frames"]:
+                if l in QUEUED_NOT_AWAITED[a["op"]] and a["ts"] < t < a["te"] - TOL and any(t + TOL < e < a["te"] - TOL for e in ends):
+                    seen.add("pair.other-wait-ends-while-frame-set-aside")
+                    if l == "D":
+                        seen.add("pair.other-wait-ends-while-data-set-aside-in-ack-wait")
+    for k in seen:
+        ctx.reach(k)
+
+
 def one(ctx: Any, sc: dict[str, Any], nontrivial: bool = True) -> dict[str, Any] | None:
     ctx.case(repr(sc), nontrivial=nontrivial)
     try:
-        out = vtime.run(run_scenario(sc))
+        outs = vtime.run(run_scenario(sc))
     except vtime.Deadlock:
-        blocked = "read-without-timeout" if any(o["op"] == "R" and o["timeout"] is None for o in sc["ops"]) else "other"
+        both = [sc] + ([sc["peer"]] if sc.get("peer") else [])
+        allops = [o for c in both for o in c["ops"] + [q for t in c.get("tasks", []) for q in t]]
+        blocked = "read-without-timeout" if any(o["op"] == "R" and o["timeout"] is None for o in allops) else "other"
         ctx.violation(f"blocks-forever/{blocked}/{'alive' if 'A' in repr(sc) else 'no-alive'}", "an operation can never complete (nothing scheduled, nothing readable)", {"scenario": sc})
         return None
-    check(ctx, sc, out)
-    return out
+    peer = sc.get("peer")
+    (check_conc if sc.get("tasks") else check)(ctx, sc, outs[0], sc, "first", outs[1] if peer else None)
+    if peer:
+        # each connection's observations are judged separately, against the frames sent on ITS stream
+        (check_conc if peer.get("tasks") else check)(ctx, peer, outs[1], sc, "second", outs[0])
+        pair_reach(ctx, [sc, peer], outs)
+    return outs[0]
 
 
 # ---- workloads ------------------------------------------------------------------------------------------
-def reaction(rng: random.Random, sc: dict[str, Any], pre: list[str], ackkind: str, post: list[str], uid: list[int]) -> list[Any]:
+def reaction(rng: random.Random, sc: dict[str, Any], pre: list[str], ackkind: str, post: list[str], uid: list[int], separate: bool = False, echo1: bool = False) -> list[Any]:
+    """separate: every frame of the reaction travels in a segment of its own (no two frames at the same instant);
+    echo1: acknowledgements echo at least one byte of the request (needed to tell the acks of several outstanding requests apart)"""
     r: list[Any] = []
     d = 0.0
+    z = [] if separate else [0.0]
+    lo = 1 if echo1 else 0
     for l in pre:
-        d += rng.choice([0.0, 0.001, 0.01, 0.2]) if r else rng.choice([0.001, 0.01, 0.2])
+        d += rng.choice(z + [0.001, 0.01, 0.2]) if r else rng.choice([0.001, 0.01, 0.2])
         r.append((round(d, 4), letter_spec(rng, sc, l, uid)))
-    d += rng.choice([0.0, 0.001, 0.02, 0.3]) if r else rng.choice([0.001, 0.02, 0.3])
+    d += rng.choice(z + [0.001, 0.02, 0.3]) if r else rng.choice([0.001, 0.02, 0.3])
     if ackkind == "ack":
-        r.append((round(d, 4), ["ACK", rng.choice([None, 0, 2, 5])]))
+        r.append((round(d, 4), ["ACK", rng.choice([None, lo, 2, 5])]))
     elif ackkind == "tu":
-        r.append((round(d, 4), ["TU", rng.choice([0, 2])]))
+        r.append((round(d, 4), ["TU", rng.choice([lo, 2])]))
     elif ackkind == "nack":
-        r.append((round(d, 4), ["N", rng.choice([0x02, 0x03, 0x04, 0x05, 0x07, 0x08, 0x55]), rng.choice([0, 2, 99])]))
+        r.append((round(d, 4), ["N", rng.choice([0x02, 0x03, 0x04, 0x05, 0x07, 0x08, 0x55]), rng.choice([lo, 2, 99])]))
     elif ackkind == "late":
         r.append((round(2.0 + rng.choice([0.05, 0.5]), 4), ["ACK", None]))
     for l in post:
-        d += rng.choice([0.0, 0.0, 0.001, 0.01, 0.25])  # 0.0: same delay as the previous frame = coalesced into one segment
+        d += rng.choice(z + z + [0.001, 0.01, 0.25])  # 0.0: same delay as the previous frame = coalesced into one segment
         r.append((round(d, 4), letter_spec(rng, sc, l, uid)))
     return r
 
@@ -502,23 +748,151 @@ def scripted(rng: random.Random, pre: list[str], ackkind: str, post: list[str]) 
     return sc
 
 
+def random_program(rng: random.Random, uid0: int = 0, addr: tuple[int, int] | None = None) -> dict[str, Any]:
+    """several writes/reads/idle phases with injected frames in every phase, then drained"""
+    sc = base_scenario(rng)
+    if addr is not None:
+        sc["src"], sc["tgt"] = addr
+    uid = [uid0]
+    ops: list[dict[str, Any]] = []
+    pending_d = 0
+    for _ in range(rng.randint(1, 4)):
+        pre = rng.choices(LETTERS, weights=[4, 2, 3, 1, 1, 1, 1], k=rng.choice([0, 0, 1, 2, 3]))
+        post = rng.choices(LETTERS[:5], weights=[5, 2, 2, 1, 1], k=rng.choice([0, 1, 2, 3]))
+        ackkind = rng.choices(["ack", "tu", "nack", "none", "late"], weights=[10, 2, 2, 1, 1])[0]
+        ops.append({"op": "W", "data": rng.choice(["22f190", "1003", "3e00", "2e123400"]) + rng.randbytes(rng.choice([0, 0, 3, 30])).hex(), "react": reaction(rng, sc, pre, ackkind, post, uid)})
+        pending_d += sum(1 for l in pre + post if l == "D")
+        for _ in range(rng.randint(0, 2)):
+            k = rng.random()
+            if k < 0.6:
+                arr = []
+                if rng.random() < 0.5:
+                    arr.append((rng.choice([0.05, 0.3, 0.7]), ["A"]))
+                if rng.random() < 0.4:
+                    arr.append((rng.choice([0.1, 0.4]), letter_spec(rng, sc, "D", uid)))
+                    pending_d += 1
+                arr.sort(key=lambda x: x[0])
+                ops.append({"op": "R", "timeout": rng.choice([0.5, 1.0]), "arrive": arr})
+            else:
+                arr = [(rng.choice([0.01, 0.2]), letter_spec(rng, sc, rng.choice(["A", "A", "D", "F", "U"]), uid))]
+                pending_d += 1 if arr[0][1][0] == "D" else 0
+                ops.append({"op": "idle", "dt": rng.choice([0.3, 0.6, 1.0]), "arrive": arr})
+    for _ in range(pending_d + 1):
+        ops.append({"op": "R", "timeout": 0.6})
+    sc["ops"] = ops
+    sc["drained"] = True
+    r = rng.random()
+    if r < 0.3:
+        sc["cuts"] = sorted(rng.sample(range(1, 400), rng.randint(1, 30)))
+    elif r < 0.4:
+        sc["bytewise"] = True
+    return sc
+
+
+def maybe_peer(ctx: Any, rng: random.Random, sc: dict[str, Any], rate: float, family: str) -> None:
+    if rng.random() < rate:
+        sc["peer"] = make_peer(rng, sc)
+        ctx.reach(f"pair.family.{family}")
+
+
+def make_peer(rng: random.Random, sc: dict[str, Any]) -> dict[str, Any]:
+    """a SECOND connection for the same event loop: own host/port (own gateway), own address pair (now and then the same logical
+    addresses as the first one - two vehicles of the same type), own protocol version, own op program with its own, different user
+    data (tags from 0x8000), own segmentation, started a little earlier/later so that activations, ack waits and reads of the two interleave"""
+    same = rng.random() < 0.3
+    peer = random_program(rng, uid0=0x8000, addr=(sc["src"], sc["tgt"]) if same else None)
+    if not same and (peer["src"], peer["tgt"]) == (sc["src"], sc["tgt"]):
+        peer = random_program(rng, uid0=0x8000, addr=(sc["src"], sc["tgt"] ^ 0x20))
+    peer.update({"host": "192.0.2.10", "port": 13401, "start": rng.choice([0.0, 0.0, 0.004, 0.05, 0.21, 0.5]), "rar_delay": rng.choice([0.01, 0.15]), "dup": None})
+    return peer
+
+
+def conc_scenario(rng: random.Random) -> dict[str, Any]:
+    """ONE connection used by several tasks at once: 2-3 writer tasks (1-2 writes each, requests that differ in their first bytes),
+    optionally a reader task and a task during which further frames arrive. Every request is acknowledged (positive, TargetUnreachable
+    or negative) in time; around the acks the gateway sends letters of the whole alphabet (diagnostic messages for us / for others,
+    alive checks, unknown types, header nacks, foreign and wrong-echo acks). Mostly every frame travels in a segment of its own."""
+    sc = base_scenario(rng)
+    uid = [0]
+    separate = rng.random() < 0.8
+    heads = rng.sample(["22", "3e", "10", "2e", "31", "27", "19"], 3)
+    tasks: list[list[dict[str, Any]]] = []
+    nd = 0
+    for i in range(rng.choice([2, 2, 3])):
+        ops: list[dict[str, Any]] = []
+        if rng.random() < 0.5:
+            ops.append({"op": "idle", "dt": rng.choice([0.0005, 0.003, 0.02, 0.15])})
+        for j in range(rng.choice([1, 1, 2])):
+            pre = rng.choices(LETTERS, weights=[4, 2, 3, 1, 1, 1, 1], k=rng.choice([0, 1, 1, 2, 3]))
+            post = rng.choices(LETTERS[:5], weights=[5, 2, 2, 1, 1], k=rng.choice([0, 0, 1, 2]))
+            ackkind = rng.choices(["ack", "tu", "nack"], weights=[10, 2, 1])[0]
+            nd += sum(1 for l in pre + post if l == "D")
+            ops.append({"op": "W", "data": heads[i] + f"{j:02x}" + rng.randbytes(rng.choice([0, 2, 6])).hex(), "react": reaction(rng, sc, pre, ackkind, post, uid, separate=separate, echo1=True)})
+        tasks.append(ops)
+    if rng.random() < 0.5:
+        tasks.append([{"op": "idle", "dt": rng.choice([0.0002, 0.005, 0.1])}] + [{"op": "R", "timeout": rng.choice([0.7, 1.3, 2.6])} for _ in range(rng.choice([1, 2]))])
+    if rng.random() < 0.4:
+        arr = [(rng.choice([0.004, 0.05, 0.23]), ["A"])]
+        if rng.random() < 0.5:
+            arr.append((rng.choice([0.006, 0.12]), letter_spec(rng, sc, rng.choice(["D", "F"]), uid)))
+            nd += arr[-1][1][0] == "D"
+        arr.sort(key=lambda x: x[0])
+        tasks.append([{"op": "idle", "dt": 0.3, "arrive": arr}])
+    sc["tasks"] = tasks
+    sc["ops"] = [{"op": "R", "timeout": 1.0} for _ in range(nd + 1)]
+    sc["drained"] = True
+    r = rng.random()
+    if r < 0.15:
+        sc["cuts"] = sorted(rng.sample(range(1, 300), rng.randint(1, 20)))
+    elif r < 0.25:
+        sc["bytewise"] = True
+    return sc
+
+
 def run(ctx: Any, params: dict[str, Any]) -> None:
     import gallia.command  # noqa: F401
 
     vtime.quiet_logging()
     rng = ctx.rng
     mode = params["mode"]
+    # every scenario family also runs with a second live connection in the same event loop: share of the cases that get one
+    peer_rate = params.get("peer_rate", 0.07)
+    if mode == "pair":
+        # two live connections, each with its own random program (now and then one of them is used by several tasks at once)
+        for i in range(params["n"]):
+            sc = conc_scenario(rng) if i % 4 == 3 else random_program(rng)
+            sc["peer"] = make_peer(rng, sc)
+            one(ctx, sc)
+            if i % 50 == 0:
+                ctx.sample({"uri": uri(sc), "peer_uri": uri(sc["peer"]), "peer_start": sc["peer"]["start"], "ops": [(o["op"], [x[1][0] for x in o.get("react", [])] or None) for o in sc["ops"]][:6],
+                            "peer_ops": [(o["op"], [x[1][0] for x in o.get("react", [])] or None) for o in sc["peer"]["ops"]][:6]})
+            if ctx.out_of_time():
+                break
+        return
+    if mode == "conc":
+        # one connection used by several tasks at once
+        for i in range(params["n"]):
+            sc = conc_scenario(rng)
+            maybe_peer(ctx, rng, sc, max(peer_rate, 0.2), "concurrent-users")
+            one(ctx, sc)
+            if i % 50 == 0:
+                ctx.sample({"uri": uri(sc), "tasks": [[(o["op"], [x[1][0] for x in o.get("react", [])] or None) for o in t] for t in sc["tasks"]], "cuts": sc["cuts"][:6]})
+            if ctx.out_of_time():
+                break
+        return
     if mode == "connect":
         acts = [a for a in range(256) if a % params["parts"] == params["part"]]
         for a in acts:
             for ver in ([1, 2, 3] if params.get("full") else [rng.choice([1, 2, 3])]):
                 sc = base_scenario(rng)
                 sc.update({"act": a, "ver": ver, "ops": [{"op": "W", "data": "3e00", "react": [(0.01, ["ACK", None]), (0.02, ["D", "7e00"])]}, {"op": "R", "timeout": 1.0}]})
+                maybe_peer(ctx, rng, sc, peer_rate, "activation-types")
                 one(ctx, sc)
                 ctx.reach("connect.activation-types")
         for code in [c for c in range(256) if c % params["parts"] == params["part"]]:
             sc = base_scenario(rng)
             sc.update({"rar_code": code, "ops": [{"op": "W", "data": "3e00", "react": [(0.01, ["ACK", None])]}]})
+            maybe_peer(ctx, rng, sc, peer_rate, "response-codes")
             one(ctx, sc)
             ctx.reach("connect.response-codes")
         for _ in range(60 if not params.get("full") else 600):
@@ -537,6 +911,7 @@ def run(ctx: Any, params: dict[str, Any]) -> None:
             else:
                 sc["bytewise"] = True
             sc["ops"] = [{"op": "W", "data": "1001", "react": [(0.01, ["ACK", 2]), (0.05, ["D", "5001003201f4"])]}, {"op": "R", "timeout": 2.0}]
+            maybe_peer(ctx, rng, sc, max(peer_rate, 0.3), "activation-variants")
             one(ctx, sc)
         return
     if mode == "exh":
@@ -555,6 +930,7 @@ def run(ctx: Any, params: dict[str, Any]) -> None:
                         if ackkind != "ack" and (place != "pre" or k % 3):
                             continue
                         sc = scripted(rng, pre, ackkind, post)
+                        maybe_peer(ctx, rng, sc, peer_rate, "scripted")  # the re-segmented variants below inherit the second connection
                         out = one(ctx, sc)
                         if out is None or ackkind != "ack" or k % 11:
                             continue
@@ -597,46 +973,14 @@ def run(ctx: Any, params: dict[str, Any]) -> None:
                          {"op": "idle", "dt": 0.9, "arrive": [(0.01, ["A"]), (0.3, ["A"])]}] + [{"op": "R", "timeout": 0.6} for _ in range(nd + 1)]
             sc["drained"] = True
             ctx.reach("burst-then-alive")
+            maybe_peer(ctx, rng, sc, max(peer_rate, 0.2), "burst")
             one(ctx, sc)
             continue
-        sc = base_scenario(rng)
-        uid = [0]
-        ops: list[dict[str, Any]] = []
-        pending_d = 0
-        closed = False
-        for _ in range(rng.randint(1, 4)):
-            pre = rng.choices(LETTERS, weights=[4, 2, 3, 1, 1, 1, 1], k=rng.choice([0, 0, 1, 2, 3]))
-            post = rng.choices(LETTERS[:5], weights=[5, 2, 2, 1, 1], k=rng.choice([0, 1, 2, 3]))
-            ackkind = rng.choices(["ack", "tu", "nack", "none", "late"], weights=[10, 2, 2, 1, 1])[0]
-            ops.append({"op": "W", "data": rng.choice(["22f190", "1003", "3e00", "2e123400"]) + rng.randbytes(rng.choice([0, 0, 3, 30])).hex(), "react": reaction(rng, sc, pre, ackkind, post, uid)})
-            pending_d += sum(1 for l in pre + post if l == "D")
-            for _ in range(rng.randint(0, 2)):
-                k = rng.random()
-                if k < 0.6:
-                    arr = []
-                    if rng.random() < 0.5:
-                        arr.append((rng.choice([0.05, 0.3, 0.7]), ["A"]))
-                    if rng.random() < 0.4:
-                        arr.append((rng.choice([0.1, 0.4]), letter_spec(rng, sc, "D", uid)))
-                        pending_d += 1
-                    arr.sort(key=lambda x: x[0])
-                    ops.append({"op": "R", "timeout": rng.choice([0.5, 1.0]), "arrive": arr})
-                else:
-                    arr = [(rng.choice([0.01, 0.2]), letter_spec(rng, sc, rng.choice(["A", "A", "D", "F", "U"]), uid))]
-                    pending_d += 1 if arr[0][1][0] == "D" else 0
-                    ops.append({"op": "idle", "dt": rng.choice([0.3, 0.6, 1.0]), "arrive": arr})
-        for _ in range(pending_d + 1):
-            ops.append({"op": "R", "timeout": 0.6})
-        sc["ops"] = ops
-        sc["drained"] = True
-        r = rng.random()
-        if r < 0.3:
-            sc["cuts"] = sorted(rng.sample(range(1, 400), rng.randint(1, 30)))
-        elif r < 0.4:
-            sc["bytewise"] = True
+        sc = random_program(rng)
+        maybe_peer(ctx, rng, sc, peer_rate, "random-programs")
         one(ctx, sc)
         if i % 100 == 0:
-            ctx.sample({"uri": uri(sc), "ops": [(o["op"], [s[1][0] for s in o.get("react", [])] or None) for o in ops][:8], "cuts": sc["cuts"][:6]})
+            ctx.sample({"uri": uri(sc), "ops": [(o["op"], [s[1][0] for s in o.get("react", [])] or None) for o in sc["ops"]][:8], "cuts": sc["cuts"][:6]})
         if ctx.out_of_time():
             break
 
@@ -702,9 +1046,10 @@ def replay(ctx: Any, witness: dict[str, Any]) -> None:
     if "latency" in witness:
         concurrent_writers(ctx, random.Random(0))
         return
-    for o in sc["ops"]:
-        for key in ("react", "arrive"):
-            if key in o:
-                o[key] = [(d, s) for d, s in o[key]]
-    sc["pre_rar"] = [(d, s) for d, s in sc.get("pre_rar", [])]
+    for c in [sc] + ([sc["peer"]] if sc.get("peer") else []):
+        for o in c["ops"] + [q for t in c.get("tasks", []) for q in t]:
+            for key in ("react", "arrive"):
+                if key in o:
+                    o[key] = [(d, s) for d, s in o[key]]
+        c["pre_rar"] = [(d, s) for d, s in c.get("pre_rar", [])]
     one(ctx, sc)
